@@ -29,6 +29,7 @@ ALPHABETS = {"full": CFG_FULL, "mix": CFG_MIX, "reduced": CFG_REDUCED, "reduced_
 
 class System(ManagerSystem):
     prop = "C01"
+    report_known = True
 
 
 def plan(tier, seed):
